@@ -166,6 +166,7 @@ structure Inv (s : State) : Prop where
   ballotWeight : ∀ id a b, (ballotsOf s.core id).get? a = some b → s.voters.get? a = some b.weight
   ballotPos : ∀ id p a b, s.core.proposals.get? id = some p → (ballotsOf s.core id).get? a = some b →
     1 ≤ b.weight ∨ (a = p.proposer ∧ b.vote = .yes)
+  totalU64 : s.cfg.totalWeight ≤ U64_MAX
 
 theorem sumWeights_eq : ∀ (l : List (AddrArg × Nat)) (acc t : Nat), sumWeights l acc = .ok t →
     t = acc + (l.map (·.2)).sum
@@ -175,6 +176,12 @@ theorem sumWeights_eq : ∀ (l : List (AddrArg × Nat)) (acc t : Nat), sumWeight
     obtain ⟨_, h⟩ := h
     have := sumWeights_eq rest (acc + w) t h
     simp; omega
+
+theorem sumWeights_le : ∀ (l : List (AddrArg × Nat)) (acc t : Nat), sumWeights l acc = .ok t → acc ≤ U64_MAX → t ≤ U64_MAX
+  | [], acc, t, h, ha => by simp [sumWeights] at h; subst h; exact ha
+  | (a, w) :: rest, acc, t, h, _ => by
+    simp [sumWeights] at h
+    exact sumWeights_le rest (acc + w) t h.2 h.1
 
 /-- The voter loop rejects repeated addresses, so every listed weight is stored under its own key. -/
 theorem addVoters_sum : ∀ (l : List (AddrArg × Nat)) (m m' : AMap Addr Nat), addVoters l m = .ok m' →
@@ -196,7 +203,7 @@ theorem instantiate_inv {m : InstMsg} {s : State} (h : instantiate m = .ok s) : 
   obtain ⟨_, total, hsum, hval, voters, hadd, rfl⟩ := h
   have h1 := sumWeights_eq _ _ _ hsum
   have h2 := addVoters_sum _ _ _ hadd (by simp [AMap.NodupKeys, AMap.keys])
-  refine ⟨wf_empty, h2.1, ?_, ?_, ?_, ?_, ?_⟩
+  refine ⟨wf_empty, h2.1, ?_, ?_, ?_, ?_, ?_, sumWeights_le _ _ _ hsum (by simp [U64_MAX])⟩
   · simp [h1, h2.2]
   · obtain ⟨u, hu⟩ := hval; cases u; simpa using hu
   · intro id p hp; simp [Core.empty] at hp
@@ -213,7 +220,7 @@ theorem execute_inv {s s' : State} {blk : Block} {snd : Addr} {m : ExecMsg} {out
     obtain ⟨expires, st, _, _, hid, _, hc'⟩ := propose_spec hp
     have hnone : s.core.proposals.get? id = none := hi.wf.fresh (by omega)
     have hb0 : ballotsOf s.core id = [] := hi.wf.noBallots id hnone
-    refine ⟨hwf, hvot ▸ hi.votersNodup, hcfg ▸ hvot ▸ hi.total, hcfg ▸ hi.thrValid, ?_, ?_, ?_⟩
+    refine ⟨hwf, hvot ▸ hi.votersNodup, hcfg ▸ hvot ▸ hi.total, hcfg ▸ hi.thrValid, ?_, ?_, ?_, hcfg ▸ hi.totalU64⟩
     · intro id' p' hp'
       rw [hc'] at hp'; simp only [AMap.get?_set] at hp'
       by_cases e : id = id'
@@ -242,7 +249,7 @@ theorem execute_inv {s s' : State} {blk : Block} {snd : Addr} {m : ExecMsg} {out
   · -- vote
     have hwf := vote_wf hi.wf hv
     obtain ⟨p, w, votes, st, hp, _, _, hw, hw1, hnb, _, _, hc'⟩ := vote_spec hv
-    refine ⟨hwf, hvot ▸ hi.votersNodup, hcfg ▸ hvot ▸ hi.total, hcfg ▸ hi.thrValid, ?_, ?_, ?_⟩
+    refine ⟨hwf, hvot ▸ hi.votersNodup, hcfg ▸ hvot ▸ hi.total, hcfg ▸ hi.thrValid, ?_, ?_, ?_, hcfg ▸ hi.totalU64⟩
     · intro id' p' hp'
       rw [hc'] at hp'; simp only [AMap.get?_set] at hp'
       by_cases e : id = id'
@@ -272,7 +279,7 @@ theorem execute_inv {s s' : State} {blk : Block} {snd : Addr} {m : ExecMsg} {out
   · -- execute
     have hwf := execute_wf hi.wf he
     obtain ⟨p, hp, _, _, _, hc'⟩ := execute_spec he
-    refine ⟨hwf, hvot ▸ hi.votersNodup, hcfg ▸ hvot ▸ hi.total, hcfg ▸ hi.thrValid, ?_, ?_, ?_⟩
+    refine ⟨hwf, hvot ▸ hi.votersNodup, hcfg ▸ hvot ▸ hi.total, hcfg ▸ hi.thrValid, ?_, ?_, ?_, hcfg ▸ hi.totalU64⟩
     · intro id' p' hp'
       rw [hc'] at hp'; simp only [AMap.get?_set] at hp'
       by_cases e : id = id'
@@ -288,7 +295,7 @@ theorem execute_inv {s s' : State} {blk : Block} {snd : Addr} {m : ExecMsg} {out
   · -- close
     have hwf := close_wf hi.wf hcl
     obtain ⟨p, _, hp, _, _, _, _, _, _, hc'⟩ := close_spec hcl
-    refine ⟨hwf, hvot ▸ hi.votersNodup, hcfg ▸ hvot ▸ hi.total, hcfg ▸ hi.thrValid, ?_, ?_, ?_⟩
+    refine ⟨hwf, hvot ▸ hi.votersNodup, hcfg ▸ hvot ▸ hi.total, hcfg ▸ hi.thrValid, ?_, ?_, ?_, hcfg ▸ hi.totalU64⟩
     · intro id' p' hp'
       rw [hc'] at hp'; simp only [AMap.get?_set] at hp'
       by_cases e : id = id'
@@ -302,6 +309,16 @@ theorem execute_inv {s s' : State} {blk : Block} {snd : Addr} {m : ExecMsg} {out
       · simp only [e, if_true, Option.some.injEq] at hp'; subst hp'; exact hi.ballotPos id p a b hp (e ▸ hb)
       · simp only [e, if_false] at hp'; exact hi.ballotPos id' p' a b hp' hb
 
+/-- The stored tally never exceeds the proposal's total weight. -/
+theorem Inv.tally_le {s : State} (hi : Inv s) {id : Nat} {p : Proposal} (hp : s.core.proposals.get? id = some p) :
+    p.votes.yes + p.votes.no + p.votes.abstain + p.votes.veto ≤ p.totalWeight := by
+  have h1 : weightSum (ballotsOf s.core id) ≤ p.totalWeight := by
+    rw [(hi.propCfg id p hp).1, hi.total]
+    exact weightSum_le_sum _ _ (hi.wf.nodup id) hi.votersNodup (fun a b hb => hi.ballotWeight id a b hb)
+  rw [weightSum_eq] at h1
+  rw [hi.wf.tally id p hp]
+  simpa [tallyOf] using h1
+
 /-! ## reachable worlds -/
 
 /-- The worlds reachable from an accepted instantiation (any multisig address, any initial bank
@@ -313,6 +330,24 @@ def Reachable (fuel : Nat) (w : World) : Prop :=
 theorem reachable_inv {fuel : Nat} {w : World} (h : Reachable fuel w) : Inv w.ms := by
   obtain ⟨m, s, self, bank, sink, ops, hi, rfl⟩ := h
   exact run_state_inv Inv (fun _ _ _ _ _ _ hi h => execute_inv hi h) fuel ops _ (instantiate_inv hi)
+
+/-! ## histories whose blocks never go back -/
+
+def blockLe (a b : Block) : Prop := a.height ≤ b.height ∧ a.time ≤ b.time
+
+/-- Worlds reachable by a history whose blocks never go back; the second argument is the block of
+the last operation (any block for the freshly instantiated world). -/
+inductive ReachableAt (fuel : Nat) : World → Block → Prop
+  | init {m : InstMsg} {s : State} (self : Addr) (bank : AMap (Addr × String) Nat) (sink : Bool) (b : Block) :
+      instantiate m = .ok s → ReachableAt fuel (World.init s self bank sink) b
+  | step {w : World} {b : Block} (op : Op) : ReachableAt fuel w b → blockLe b op.blk → ReachableAt fuel (step fuel w op) op.blk
+
+theorem ReachableAt.reachable {fuel : Nat} {w : World} {b : Block} (h : ReachableAt fuel w b) : Reachable fuel w := by
+  induction h with
+  | init self bank sink b hi => exact ⟨_, _, self, bank, sink, [], hi, rfl⟩
+  | step op _ _ ih =>
+    obtain ⟨m, s, self, bank, sink, ops, hi, rfl⟩ := ih
+    exact ⟨m, s, self, bank, sink, ops ++ [op], hi, by simp [run, List.foldl_append]⟩
 
 /-- A relation between the state at the start of a history and the state at its end, given that it
 is reflexive, transitive and holds across every handler call from a state satisfying `Inv`. -/
